@@ -214,6 +214,21 @@ func (s *Session) SetModuleState(moduleName string, state any) {
 	s.moduleStates[moduleName] = state
 }
 
+// ModuleStateOrInit returns the state the session holds for the module, after
+// storing the one made by newState if it holds none. Participants joining a
+// new session at the same time all get the same state.
+func (s *Session) ModuleStateOrInit(moduleName string, newState func() any) any {
+	s.moduleMutex.Lock()
+	defer s.moduleMutex.Unlock()
+
+	state, ok := s.moduleStates[moduleName]
+	if !ok {
+		state = newState()
+		s.moduleStates[moduleName] = state
+	}
+	return state
+}
+
 func (s *Session) ModuleState(moduleName string) (any, bool) {
 	s.moduleMutex.RLock()
 	defer s.moduleMutex.RUnlock()
